@@ -645,14 +645,15 @@ package ast
 //@ func (*Lexer).getNextToken [C16 C08]
 //@   requires lexOk(s)
 //@   let p0 := s.r.pos
+//@   nopanic [C08]
 //@   modifies *
 //@   ensures inv: lexOk(s) && s.r.data == old(s.r.data) && s.r == old(s.r)
 //@   ensures progress: result.1 == nil ==> result.0 != nil && (result.0.TokenType == EOF || s.r.pos > p0) [C08]
 //@   loop 1 invariant lexOk(s) && s.r.data == old(s.r.data) && s.r == old(s.r) && token != nil
-//@   loop 1 invariant SSTART <= current_state && current_state <= SEND && s.r.pos >= p0 && (current_state != SSTART ==> s.r.pos > p0 && len(s.position.store) >= 2) [C08]
+//@   loop 1 invariant SSTART <= current_state && current_state <= SEND && s.r.pos >= p0 && (current_state != SSTART ==> s.r.pos > p0 && len(s.position.store) >= 2)
 //@   loop 1 decreases len(s.r.data) - s.r.pos [C08]
 //@   loop 2 invariant lexOk(s) && s.r.data == old(s.r.data) && s.r == old(s.r) && token != nil && s.r.pos > p0 && len(s.position.store) >= 2 && current_state == SSTART
-//@   loop 2 invariant curr_ch != 0 ==> s.r.pos <= len(s.r.data) [C08]
+//@   loop 2 invariant curr_ch != 0 ==> s.r.pos <= len(s.r.data)
 //@   loop 2 decreases len(s.r.data) - s.r.pos + (curr_ch == 0 ? 0 : 1) [C08]
 //@   atcall WriteRune plain: (current_state == SSTRING_DOUBLE || current_state == SSTRING_SINGLE) ==> arg1 == ch [C16]
 //@   atcall WriteRune escape: (current_state == SSTRING_D_ESCAPE || current_state == SSTRING_S_ESCAPE) && !defined(hex) ==> ch != 'x' && arg1 == escOf(ch) [C16]
